@@ -165,11 +165,11 @@ fn gen_plan(seed: u64) -> VecPlan {
     let mut threads = vec![];
     let mut nops = 0u64;
     for _ in 0..nthreads {
-        let n = if tiny { 1 + r.below(2) as usize } else { 2 + r.below(if nthreads == 1 { 7 } else { 4 }) as usize };
+        let n = if tiny { 1 + r.below(3) as usize } else { 2 + r.below(if nthreads == 1 { 7 } else { 4 }) as usize };
         let mut ops: Vec<VOp> = vec![];
         for i in 0..n {
             let gets: Vec<usize> = ops.iter().enumerate().filter(|(_, o)| matches!(o, VOp::GetInc { .. })).map(|(j, _)| j).collect();
-            let roll = if tiny { *r.pick(&[10u64, 10, 70, 70, 79, 90]) } else { r.below(100) };
+            let roll = if tiny { *r.pick(&[10u64, 10, 10, 70, 70, 79, 90]) } else { r.below(100) };
             let op = match roll {
                 0..=49 => {
                     bit += 1;
